@@ -245,6 +245,9 @@ pub enum CidrCtor {
     VxPrefix,
     FromStr,
     Raw,
+    /// the public variants V4(addr, mask) / V6(addr, mask) with a mask that is NOT a prefix: the prefix mask with its second
+    /// octet cleared (255.0.255.0 for prefix 24); an iPAddress constraint is an address and a mask, any mask
+    RawHoles,
 }
 
 #[derive(Clone, Debug, PartialEq, Eq, Hash)]
@@ -260,7 +263,7 @@ impl CidrSpec {
     pub fn mask(&self) -> Vec<u8> {
         let n = self.addr.len();
         let p = (self.prefix as usize).min(n * 8);
-        (0..n)
+        let mut m: Vec<u8> = (0..n)
             .map(|i| {
                 let bits = p.saturating_sub(i * 8).min(8);
                 if bits == 0 {
@@ -269,7 +272,11 @@ impl CidrSpec {
                     (0xffu16 << (8 - bits)) as u8
                 }
             })
-            .collect()
+            .collect();
+        if self.ctor == CidrCtor::RawHoles {
+            m[1] = 0;
+        }
+        m
     }
     pub fn bytes(&self) -> Vec<u8> {
         let mut v = self.addr.clone();
